@@ -971,9 +971,9 @@ func c05check(c *ctx, ref *c05ref, cases []c05case) {
 	if kind == "au" || kind == "he" {
 		recoverFrom = -1
 	}
-	conc := 24
+	conc := vlib.Conc(24)
 	if kind == "cb" {
-		conc = 8 // the callback reader spins without sleeping
+		conc = vlib.Conc(8) // the callback reader spins without sleeping
 	}
 	if c05hangGroups >= 2 && kind != "rq" {
 		res.Count("groups-skipped-after-confirmed-hangs")
@@ -1053,7 +1053,7 @@ func c05check(c *ctx, ref *c05ref, cases []c05case) {
 			break
 		}
 		res.Count(fmt.Sprintf("timing-rerun:%d", len(again)))
-		conc = 4
+		conc = vlib.Conc(4)
 		prev := make(map[int]c05obs)
 		for _, i := range again {
 			prev[i] = obs[i]
